@@ -105,6 +105,20 @@ class C17(Property):
     def strategy(self, tier):
         return specs(tier)
 
+    # droplet counting on one connected band that winds through the periodic boundaries, for every translation along either axis
+    # (whether a defect of the periodic merge shows depends on where the box cuts the band): a fixed sweep
+    def exhaustive_jobs(self, tier):
+        return [{"domain": "winding-bands", "band": b, "width": w} for b in ([1, 3], [3, 1], [1, 2], [3, 2]) for w in (0.0, 0.5, 0.8)]
+
+    def expand(self, job):
+        n = 48
+        for ax in (0, 1):
+            for k in range(1, n, 2):
+                shift = [0, 0]
+                shift[ax] = k
+                yield {"method": "droplets", "shape": [n, n], "spacing": [1.0, 0.75], "seed": 3, "stretch": 2.0, "scale": 2.0, "shift": shift, "amp": 1.0, "offset": 0.0,
+                       "origin_f": [0.0, -0.5], "alias": False, "full_output": False, "periodic": [True, True], "n": 1, "threshold": "auto", "shapes": "band", "band": job["band"], "band_width": job["width"]}
+
     def check(self, spec, ctx: Ctx):
         from pde import ScalarField
 
